@@ -197,7 +197,19 @@ def r_viz(ctx):
                 la = [fl.term_point(bb) for (bb, t) in fl.calls_to('push', 'insert') if self_field(fl.origin.operand(t['args'][0], fl.term_point(bb)), 'layers')]
                 r = fl.reach([(0, 0)], avoid=la)
                 always = bool(la) and not any(p in r for p in ret_points(fl))
-                ok = ok2 and always
+                # ... and that layer must provably BE the terminal container (Pooled records the pool's node list; a layer
+                # encoded as an index range over `nodes` is not tied to the container and is not accepted)
+                content_ok = False
+                if tag == 'Pooled':
+                    from .dd_rules import r_pooled_layers
+                    from ..core import Ctx
+                    sub = Ctx(ctx.F, ctx.config, ctx.prop, ctx.tier)
+                    try:
+                        r_pooled_layers(sub)
+                        content_ok = any(r_['instance'] == 'terminal-layer' and r_['verdict'] == 'holds' for r_ in sub.results)
+                    except Exception:
+                        content_ok = False
+                ok = ok2 and always and content_ok
                 how = 'the last layer is tested and _finalize_layers records the terminal container as the last layer on every path'
             ctx.check(ok, 'R20.d', tag + '/terminal-iff-last-layer-non-empty', tb_, tb_.loc(emits[0][0]),
                       'the terminal node is drawn only when the terminal container is non-empty (%s)' % how,
